@@ -10,6 +10,7 @@ RULE = (
     "C01's catalogue x all 2^k messages (k<=12; 2048 seeded above) x layouts {1-D, (B,.), (B1,B2,.)} x b=1..4 concatenated blocks x dtypes "
     "{float32,float64,int64}; per case: encode shape (.., b*n), inverse_encode -> (message, zero syndrome), extract_message, project_word; "
     "rejection for last dimension b*k+-1 / b*n+-1. Distinct = (object, layout, b, dtype, message-batch digest); non-trivial = batch contains a non-zero message."
+    " Added after the seeded-fault rounds: same catalogue additions as C01 (index-list information sets for cyclic/BCH, int64 generators, wide same-shaped groups), units grouped by family and (n,k)."
 )
 ASSUMPTIONS = [
     "exact tensor equality against the message that was fed (after value comparison across dtypes)",
